@@ -78,10 +78,10 @@ func init() {
 			return nil
 		},
 		"(*strings.Builder).Grow": func(x *Exec, fr *frame, fn *ssa.Function, a []Value) Value { return nil },
-		"regexp.MustCompile": func(x *Exec, fr *frame, fn *ssa.Function, a []Value) Value {
+		"regexp.MustCompile#off": func(x *Exec, fr *frame, fn *ssa.Function, a []Value) Value {
 			return RegexpV{cstr(x, a[0], "regexp pattern")}
 		},
-		"(*regexp.Regexp).ReplaceAll": func(x *Exec, fr *frame, fn *ssa.Function, a []Value) Value {
+		"(*regexp.Regexp).ReplaceAll#off": func(x *Exec, fr *frame, fn *ssa.Function, a []Value) Value {
 			re, ok := a[0].(RegexpV)
 			if !ok || re.Pattern != `>[\n\t\r ]*<` {
 				x.unsupported("regexp pattern not modelled")
